@@ -650,7 +650,8 @@ func (h *c20) caseZombiePrune(variant int) {
 		cs.submit(1, h.mkCA(other))
 		// which direction lags behind (older than the prune expiry at the tick)
 		lag := uint8((variant / 2) % 2)
-		old := now - expiry + 1800 // stale at the tick (one hour later), accepted now
+		pi := uint32(c20PruneInterval / time.Second)
+		old := now - expiry + pi/2 // stale at the tick (one interval later), accepted now
 		switch (variant / 4) % 3 {
 		case 0: // both directions known, one lags
 			cs.submit(1, mk(c, old, lag, 1, own(c, lag)))
@@ -663,7 +664,7 @@ func (h *c20) caseZombiePrune(variant int) {
 		}
 		// the other channel is healthy, or exactly at the boundary
 		cs.submit(1, mk(other, now-50, 0, 3, other.n1))
-		cs.submit(1, mk(other, now-expiry+3600+uint32(variant%3)-1, 1, 4, other.n2))
+		cs.submit(1, mk(other, now-expiry+pi+uint32(variant%3)-1, 1, 4, other.n2))
 		cs.zombiePrune()
 		now = cs.nowSec()
 		// resurrection attempts: each direction, signed by each party (who tries
